@@ -289,32 +289,72 @@ def leaves(v, acc=None):
     return acc
 
 
+# Composite keys (tuples / records / Optionals used as dict or set keys).  Default: one array dimension per component.
+# Opt-in (sidecar PACK_KEYS): the components are packed into ONE index of an uninterpreted sort by an injective function
+# pack (injective because it has left inverses unpack_i): a store/select on a key is then one array operation instead of a
+# nest of one per component.  Same meaning (keys are equal iff all components are), much smaller case analysis.
+PACK = {"enabled": False, "funs": {}, "axioms": [], "sink": None}
+
+
+def _pack_decl(sorts):
+    sig = tuple(str(s_) for s_ in sorts)
+    if sig not in PACK["funs"]:
+        name = f"PK{len(PACK['funs'])}"
+        S = z3.DeclareSort(name)
+        f = z3.Function("pack_" + name, *(list(sorts) + [S]))
+        vs = [z3.Const(f"{name}_c{i}", s_) for i, s_ in enumerate(sorts)]
+        axioms = [z3.ForAll(vs, z3.Function(f"unpack_{name}_{i}", S, s_)(f(*vs)) == vs[i], patterns=[f(*vs)]) for i, s_ in enumerate(sorts)]
+        PACK["funs"][sig] = (S, f, axioms)
+        PACK["axioms"] += axioms
+    S, f, axioms = PACK["funs"][sig]
+    if PACK["sink"] is not None:
+        for a_ in axioms:
+            if not any(a_.eq(x) for x in PACK["sink"]):
+                PACK["sink"].append(a_)
+    return S, f
+
+
 def key_sorts(kshape):
+    flat = _key_sorts_flat(kshape)
+    if PACK["enabled"] and len(flat) > 1:
+        return [_pack_decl(flat)[0]]
+    return flat
+
+
+def key_terms(k):
+    """the index term(s) of a key value: its flattened components, or their packing (see PACK)"""
+    flat = _key_terms_flat(k)
+    if PACK["enabled"] and len(flat) > 1:
+        return [_pack_decl([t.sort() for t in flat])[1](*flat)]
+    return flat
+
+
+def _key_sorts_flat(kshape):
     if kshape[0] == "tuple":
         out = []
         for s in kshape[1]:
-            out += key_sorts(s)
+            out += _key_sorts_flat(s)
         return out
     if kshape[0] == "rec" and kshape[1] in REC_TABLE:
         # a record used as a key: its fields in declaration order (dataclass eq/hash compare exactly these)
         out = []
         for s in REC_TABLE[kshape[1]]["fields"].values():
-            out += key_sorts(parse_shape(s))
+            out += _key_sorts_flat(parse_shape(s))
         return out
     if kshape[0] == "opt":
         # Optional key: (is None, payload); the payload is normalised to a default when None (see key_terms)
-        return [z3.BoolSort()] + key_sorts(kshape[1])
+        return [z3.BoolSort()] + _key_sorts_flat(kshape[1])
     if kshape[0] in ("ref", "enum", "char"):
         return [z3.IntSort()]
     return [BASE_SORTS[kshape[0]]()]
 
 
-def key_terms(k):
+def _key_terms_flat(k):
     """flatten a key value into a list of z3 index terms"""
     if isinstance(k, VTuple):
         out = []
         for x in k.items:
-            out += key_terms(x)
+            out += _key_terms_flat(x)
         return out
     if isinstance(k, VRef):
         return [to_z3(k.ident)]
@@ -325,12 +365,12 @@ def key_terms(k):
     if isinstance(k, VRec):
         out = []
         for x in k.fields.values():
-            out += key_terms(x)
+            out += _key_terms_flat(x)
         return out
     if isinstance(k, VOpt):
         # None is one key: the (arbitrary) payload of a None is replaced by the sort's default
         n = to_z3(k.isnone)
-        return [n] + [z3.If(n, _sort_default(t.sort()), t) for t in key_terms(k.val)]
+        return [n] + [z3.If(n, _sort_default(t.sort()), t) for t in _key_terms_flat(k.val)]
     return [to_z3(k)]
 
 
@@ -414,6 +454,8 @@ def _select(arr, i):
     """arr[i]; a lambda-array applied to an index is beta-reduced on the spot (same term up to beta, no lambda left)"""
     if z3.is_quantifier(arr) and arr.is_lambda() and arr.num_vars() == 1 and isinstance(i, z3.ExprRef) and arr.var_sort(0) == i.sort():
         return z3.substitute_vars(arr.body(), i)
+    if z3.is_app(arr) and arr.decl().kind() == z3.Z3_OP_STORE and arr.num_args() == 3 and isinstance(i, z3.ExprRef) and arr.arg(1).eq(i):
+        return arr.arg(2)  # read of the cell just written (syntactically the same index): the written value
     return z3.Select(arr, i)
 
 
